@@ -474,12 +474,20 @@ def run_shell(b: Batch, inst, cfg):
     b.case()
     b.count("shell_cases")
     rs = {"kind": "shell1", "cfg": cfg}
+    second = []
     for i, gap in enumerate(cfg["gaps"]):
         time.sleep(gap)
+        if cfg.get("two_sources") and cfg["wait"] and cfg["drop"]:
+            # the same trick serves two observers: while one dispatching thread waits for the command, the other one delivers
+            t2 = threading.Thread(target=lambda i=i: (time.sleep(0.004), trick.dispatch(mk_event(100 + i))), name="wdv-events2", daemon=True)
+            t2.start()
+            second.append(t2)
         st, v, th = monitors.call_with_watchdog(lambda i=i: trick.dispatch(mk_event(i)), 8.0, "shell-event")
         if st == "hung":
             b.inconc("shell trick dispatch hung")
             return
+    for t2 in second:
+        t2.join(8)
     time.sleep(0.3)
     for p in table.procs.values():
         p.poll()
@@ -625,7 +633,7 @@ def run_batch(spec):
                 if b.expired():
                     break
                 wait = r.random() < 0.5
-                cfg = {"wait": wait, "drop": not wait or r.random() < 0.3,
+                cfg = {"wait": wait, "drop": not wait or r.random() < 0.5, "two_sources": r.random() < 0.5,
                        "behaviours": [{"self_exit_after": r.choice([0.01, 0.03, 0.06, 0.12])} for _ in range(8)],
                        "gaps": [r.choice([0.0, 0.005, 0.02, 0.05, 0.11, 0.15]) for _ in range(r.randint(2, 6))]}
                 if r.random() < 0.4:
